@@ -33,6 +33,7 @@ var (
 	errUnknownChecksumType      = errors.New("peer sent a fragment with an unknown checksum type")
 	errMismatchedChecksums      = errors.New("different checksums between peer and local")
 	errChunkExceedsFragmentSize = errors.New("peer chunk size exceeds remaining data in fragment")
+	errNoChunksInFragment       = errors.New("peer sent a fragment without any chunks")
 	errAlreadyReadingArgument   = errors.New("already reading argument")
 	errNotReadingArgument       = errors.New("not reading argument")
 	errMoreDataInArgument       = errors.New("closed argument reader when there is more data available to read")
@@ -298,6 +299,11 @@ func (r *fragmentingReader) recvAndParseNextFragment(initial bool) error {
 	localChecksum := r.checksum.Sum()
 	if bytes.Compare(r.curFragment.checksum, localChecksum) != 0 {
 		return r.failed(errMismatchedChecksums)
+	}
+
+	// Every fragment carries at least one chunk (possibly empty).
+	if len(r.remainingChunks) == 0 {
+		return r.failed(errNoChunksInFragment)
 	}
 
 	// Pull out the first chunk to act as the current chunk
